@@ -233,7 +233,7 @@ class Ctx:
                 continue
             arg = w.get("args", "") + (" " if w.get("args") else "") + hx(w["input"]) if "input" in w and "input_hex" not in w else w.get("args", "") + (" " if w.get("args") else "") + w.get("input_hex", "")
             try:
-                out = self.run_impl(w["cmd"], [arg.strip()])[0]
+                out = self.run_impl(w["cmd"], [arg.strip()], timeout=w.get("timeout", 120), isolate=bool(w.get("isolate")))[0]
             except Broken:
                 continue
             dec = decode_hex_fields(out)
